@@ -592,7 +592,7 @@ def rule_utf8_writers(prog, res):
         for i, s in enumerate(f.blocks[b]["stmts"]):
             if s["k"] == "assign" and s["place"]["local"] == 0 and s["rv"]["k"] == "aggregate" and s["rv"].get("vname") == "Err":
                 v = fa.rv_term(s["rv"], (b, i))
-                _ev = err_variant(v)
+                _ev = err_variant(v, fa)
                 if _ev is not None:
                     errs.add(_ev)
     res.ob("X-utf8", "1029 decode | invalid UTF-8 is reported as InvalidUtf8String", "InvalidUtf8String" in errs, str(sorted(errs)), f.loc)
@@ -609,7 +609,7 @@ def rule_utf8_writers(prog, res):
         for i, s_ in enumerate(f.blocks[b]["stmts"]):
             if s_["k"] == "assign" and s_["place"]["local"] == 0 and s_["rv"]["k"] == "aggregate" and s_["rv"].get("vname") == "Err":
                 v = fa.rv_term(s_["rv"], (b, i))
-                variant = err_variant(v)
+                variant = err_variant(v, fa)
                 if variant is None:
                     continue
                 gs = [g for g in fa.guards(b) if g[4] == "switch"]
@@ -789,7 +789,7 @@ def rule_limits(prog, res):
         for i, s in enumerate(f.blocks[b]["stmts"]):
             if s["k"] == "assign" and s["place"]["local"] == 0 and s["rv"]["k"] == "aggregate" and s["rv"].get("vname") == "Err":
                 v = fa.rv_term(s["rv"], (b, i))
-                _ev = err_variant(v)
+                _ev = err_variant(v, fa)
                 if _ev is not None:
                     errs.add(_ev)
     res.ob("X-lim", "1029 encode | over-long text is refused with an error", bool(errs), str(sorted(errs)), f.loc)
@@ -809,7 +809,7 @@ def rule_limits(prog, res):
             if s_["k"] == "assign" and not s_["place"]["proj"] and s_["rv"]["k"] == "aggregate" and s_["rv"].get("vname") == "Err" \
                     and s_["rv"].get("path") == "core::result::Result":
                 # every place where an Err(RtcmError::X) is built - directly into the return place or into the result of an inlined helper
-                if err_variant(fa.rv_term(s_["rv"], (b, i))) is None:
+                if err_variant(fa.rv_term(s_["rv"], (b, i)), fa) is None:
                     continue          # an error handed on (from a put, or from a helper's result)
                 nerr += 1
                 own = [g for g in fa.guards(b) if g[4] == "switch" and (g[0], g[1], g[2] if not isinstance(g[2], (list, set)) else tuple(g[2])) not in accept_facts
